@@ -68,7 +68,8 @@ def _pad(draw, val):
 
 
 INVALID = ["override_missing_key", "override_missing_section", "remove_missing_key", "add_existing", "add_existing_ws", "add_twice",
-           "add_twice_ws", "remove_twice", "override_bad_placeholder", "add_bad_placeholder"]
+           "add_twice_ws", "remove_twice", "override_bad_placeholder", "add_bad_placeholder", "empty_section", "empty_key",
+           "label_without_equals", "label_without_colon"]
 NOTES = ["Notes", [["author", "someone"], ["comment", "free text 1"], ["scale", "2.5"]]]
 
 
@@ -212,12 +213,31 @@ def _case(draw, targets=None, invalid=False, repeat=False, cross=False, route=No
             bad["invalid"] = why
             ops.append(bad)
             bad = None
+        elif why in ("empty_section", "empty_key"):
+            # an item needs a section name and a key: '-e :A=6' names nothing (and must not reach [Variables], which is
+            # what the INI reader makes of an empty section name)
+            op = draw(st.sampled_from(["override", "remove", "add"]))
+            if why == "empty_section":
+                vk = [kk for nn, kk, _ in keys if nn == "Variables"]
+                bad = {"op": op, "section": draw(st.sampled_from(["", " "])), "key0": k, "key": draw(st.sampled_from(vk + [k, "x"])), "value": v}
+            else:
+                bad = {"op": op, "section": n, "key0": "", "key": draw(st.sampled_from(["", " "])), "value": v}
+            bad["key0"] = bad["key"]
+        elif why in ("label_without_equals", "label_without_colon"):
+            # command-line spellings that are not SECTION_NAME:KEY=VALUE at all
+            if why == "label_without_equals":
+                bad = {"op": draw(st.sampled_from(["override", "add"])), "section": n, "key0": k, "key": k, "value": v, "raw": "%s:%s" % (n, k)}
+            else:
+                op = draw(st.sampled_from(["override", "remove", "add"]))
+                bad = {"op": op, "section": n, "key0": k, "key": k, "value": v, "raw": k if op == "remove" else "%s=%s" % (k, v)}
+                if ":" in bad["raw"].split("=", 1)[0]:
+                    bad["raw"] = "nr" if op == "remove" else "nr=5"
         elif why == "add_existing":
             bad = {"op": "add", "section": n, "key0": k, "key": k, "value": v}
         else:
             bad = {"op": "add", "section": n, "key0": k, "key": " " + k.replace("-", " - ").replace(",", " , ") + " ", "value": v}
         if bad is not None:
-            if (bad["section"], bad["key0"]) in used:
+            if (bad["section"], bad["key0"]) in used and not bad.get("raw") and why not in ("empty_section", "empty_key"):
                 bad = {"op": "override", "section": "Nowhere", "key0": k, "key": k, "value": v}
             bad["invalid"] = why
             ops.insert(draw(st.integers(0, len(ops))), bad)
@@ -271,6 +291,8 @@ def _case(draw, targets=None, invalid=False, repeat=False, cross=False, route=No
                       draw(st.sampled_from(["make_config_parser", "main"])))
     if any(o.get("invalid") == "remove_twice" for o in ops):
         route = "ConfigParser"
+    if any(o.get("raw") is not None for o in ops) and route == "ConfigParser":
+        route = "main"          # only a command line can spell an item wrongly
     return {"model": m, "ops": ops, "route": route, "notes": notes}
 
 
@@ -286,7 +308,8 @@ def strata(tier):
             ("same_key_two_sections", _case(["setfl", "DL_POLY_EAM", "excel_eam", "eam_adp", "lammps_eam_alloy"], False, False, True), 2),
             ("both_directions", _case(["setfl_fs", "DL_POLY_EAM_fs", "excel_eam_fs"], False, False, "directions"), 1),
             ("several_additions", _case(["LAMMPS", "GULP", "DL_POLY"], False, False, "additions"), 1)] + [
-            ("invalid:%s:%s" % (w, r), _case(None, w, route=r), 0.15) for w in INVALID for r in ("ConfigParser", "make_config_parser")
+            ("invalid:%s:%s" % (w, r), _case(None, w, route=r), 0.15) for w in INVALID for r in ("ConfigParser", "make_config_parser", "main")
+            if not (w.startswith("label_") and r == "ConfigParser")
             if not (w == "remove_twice" and r == "make_config_parser")]
 
 
@@ -325,6 +348,10 @@ def hand_edit(secs, ops):
     ordered = [o for o in ops if o["op"] == "override"] + [o for o in ops if o["op"] == "remove"] + \
         [o for o in ops if o["op"] == "add"]
     for o in ordered:
+        if o.get("raw") is not None:
+            return None, "argument %r is not of the form SECTION_NAME:KEY[=VALUE]" % o["raw"], stats
+        if not o["section"].strip() or not o["key"].strip():
+            return None, "item without section name or key: %r" % _label(o), stats
         s = find(o["section"])
         idx = None
         if s is not None:
@@ -361,6 +388,8 @@ def _tuples(ops):
 
 
 def _label(o, with_value=True):
+    if o.get("raw") is not None:
+        return o["raw"]
     s = "%s:%s" % (o["section"], o["key"])
     if with_value and o["op"] != "remove":
         s += "=" + o["value"]
@@ -480,6 +509,21 @@ def check_case(case):
                 if got_v != val:
                     v.append(("item_value", "--item-value %s -> %r, expected %r\n%s" % (k, got_v, val, ctx)))
                     break
+            # ... and an item the edited file does not have (a removed one, another section's key, no section at
+            # all) is reported as such, not with a value and not with an internal error
+            have = set(k for k, _ in exp)
+            gone = ["%s:%s" % (o["section"], _norm(o["key"])) for o in ops if o["op"] == "remove"]
+            probes = [g for g in gone if g not in have][:1] + ["Nowhere:key", "Tabulation:%s" % exp[-1][0].split(":")[-1], "nokey"]
+            for pk in probes:
+                if pk in have:
+                    continue
+                cls.append("item_value:missing_item")
+                try:
+                    got_v = _query_actions._item_value(cp, pk)
+                    v.append(("item_value:missing_item_has_value", "--item-value %s -> %r although the edited file has no such item\n%s" % (pk, got_v, ctx)))
+                    break
+                except ConfigurationException:
+                    pass
         except ConfigurationException:
             pass
         except Exception as e:
